@@ -217,9 +217,32 @@ def codec_peewee(prog, rep, rule="CODEC"):
     # readers rebuild events through json()
     for m, pat in (("get_events", "EventModel.json"), ("get_event", "EventModel.json")):
         fi = prog.func(f"PeeweeStorage.{m}")
-        t = norm(fi.node)
-        ok = pat in t and "Event(**" in t
+        ok = rebuilds_through_json(fi)
         rep.check(ok, rule, fi.short, "decoder used", "Event(**EventModel.json(row))", "rows are not rebuilt as Event(**EventModel.json(row))", fi.loc())
     # Event.__init__ accepts exactly those keywords
     init = prog.func("Event.__init__")
     rep.check(set(init.params[1:]) == set(PW_DEC), rule, init.short, "keyword parameters", f"{init.params[1:]}", f"Event.__init__ takes {init.params[1:]}", init.loc())
+
+
+def rebuilds_through_json(fi):
+    """the function builds Event(**d) where d comes from the model's json() (EventModel.json(row) / row.json(), directly,
+    through map(), or through a comprehension variable)"""
+    from .trace import deep
+
+    for c in walk_with_nested_exprs(fi.node):
+        if isinstance(c, ast.Call) and norm(c.func) == "Event" and len(c.keywords) == 1 and c.keywords[0].arg is None and not c.args:
+            v = c.keywords[0].value
+            texts = [norm(deep(v, fi))]
+            if isinstance(v, ast.Name):
+                # a comprehension / loop variable: look at what it ranges over
+                for n in walk_with_nested_exprs(fi.node):
+                    gens = n.generators if isinstance(n, (ast.ListComp, ast.GeneratorExp, ast.SetComp)) else []
+                    for g in gens:
+                        if norm(g.target) == v.id:
+                            texts.append(norm(deep(g.iter, fi)))
+                    if isinstance(n, ast.For) and norm(n.target) == v.id:
+                        texts.append(norm(deep(n.iter, fi)))
+            for t in texts:
+                if "EventModel.json" in t or ".json()" in t:
+                    return True
+    return False
